@@ -6,3 +6,9 @@ package cmd
 
 //@ func isSmellHaveSize
 //@ ensures result <==> (key == "largeClass" || key == "repeatedSwitches" || key == "longParameterList" || key == "longMethod" || key == "dataClass")
+
+// C14: the log grammar assumed by the parser ([hash] author date subject, numstat, summary) is what git prints for
+// exactly these arguments; the format argument must reach git without quote characters (no shell is involved)
+//@ func getCommitMessage
+//@ assert before Command#1 len(historyArgs) == 6 && historyArgs[0] == "log" && historyArgs[1] == "--pretty=format:[%h] %aN %ad %s" &&
+//@    historyArgs[2] == "--date=short" && historyArgs[3] == "--numstat" && historyArgs[4] == "--reverse" && historyArgs[5] == "--summary"
